@@ -530,6 +530,8 @@ class SoftAll(SoftErrors):
     def fail(self, rule, site, construct, msg, detail=None, where=None):
         if self._holds():
             self._rep.info.append('%s %s: the shape-based reading reports "%s" -- not confirmed by %s' % (rule, site, msg[:200], self._what))
+            if self._rep.min_instances.get(rule):
+                self._rep.min_instances[rule] -= 1          # (an instance that was looked at and is decided elsewhere)
         else:
             self._rep.fail(rule, site, construct, msg, detail, where)
 
